@@ -170,6 +170,38 @@ Proof.
 Qed.
 Print Assumptions C01_all_processed.
 
+(* What the simulator rejects (the `valid` guard is not vacuous: outside it the code raises).
+   Processing a Plugin event: unknown station -> KeyError; occupied station -> StationOccupiedError (the
+   occupant stays); otherwise the EV is connected, recorded, its Unplug is queued at ev.departure, and the
+   scheduler is asked to resolve.  Processing an Unplug: session-checked. *)
+Theorem C01_plugin_outcomes : forall N V stations (st : state N V) ts x,
+  process_event N V stations st (EPlugin ts x) =
+  if zmem (s_station x) stations then
+    match occ_get (s_station x) (occ st) with
+    | None => OkS (mkState N V (iter st) true (Some ts)
+                     (q_insert (EUnplug (s_departure x) x) (queue st)) (occ_set (s_station x) x (occ st))
+                     ((sid x, x) :: filter (fun p => negb (Z.eqb (fst p) (sid x))) (ev_hist st))
+                     (hist st) (calls st) (occ_log st) (num st))
+    | Some y => ErrS "StationOccupiedError"%string
+                     (set_occ N V st (if Z.eqb (sid y) (sid x) then occ_set (s_station x) x (occ st) else occ st))
+    end
+  else ErrS "KeyError"%string (set_occ N V st (occ st)).
+Proof. exact process_plugin_outcomes. Qed.
+Print Assumptions C01_plugin_outcomes.
+
+Theorem C01_unplug_outcomes : forall N V stations (st : state N V) ts x,
+  process_event N V stations st (EUnplug ts x) =
+  if zmem (s_station x) stations then
+    OkS (mkState N V (iter st) true (Some ts) (queue st)
+           (match occ_get (s_station x) (occ st) with
+            | Some y => if Z.eqb (sid x) (sid y) then occ_remove (s_station x) (occ st) else occ st
+            | None => occ st
+            end)
+           (ev_hist st) (hist st) (calls st) (occ_log st) (num st))
+  else ErrS "KeyError"%string (set_occ N V st (occ st)).
+Proof. exact process_unplug_outcomes. Qed.
+Print Assumptions C01_unplug_outcomes.
+
 (* ---- non-vacuity: 3 stations, back-to-back reuse of station 1, four simultaneous events at t = 4
         (two departures, two arrivals) plus a recompute at the same time ---- *)
 Definition ex_s (i st a d : Z) : session := mkSession i st a d d 1 10 0 7.
